@@ -53,6 +53,121 @@ func c24(p *an.Prog, r *an.R, tier string) {
 	c24Oneof(p, r)
 	c24NilSafety(p, r, convs)
 	c24Server(p, r)
+	c24ChunkNoMutation(p, r)
+	c24Bitmaps(p, r)
+}
+
+// c24ChunkNoMutation: the chunk sender splits one converted response over
+// several messages; it must not write into the converted message (its Stats
+// and Progress are shared by the chunks that follow).
+func c24ChunkNoMutation(p *an.Prog, r *an.R) {
+	r.Rule("C24.R4", "gRPCChunkSender never stores into the converted response or into messages obtained from it (a patched Progress/Stats must be a fresh message): later chunks of the same event would carry the patched values")
+	f := p.SSAFunc(p.Func("cmd/zoekt-webserver/grpc/server", "gRPCChunkSender"))
+	if !r.Anchor(f != nil, "grpc/server.gRPCChunkSender") {
+		return
+	}
+	n := 0
+	var all []*ssa.Function
+	var walk func(fn *ssa.Function)
+	walk = func(fn *ssa.Function) {
+		all = append(all, fn)
+		for _, a := range fn.AnonFuncs {
+			walk(a)
+		}
+	}
+	walk(f)
+	for _, fn := range all {
+		an.Instrs(fn, func(b *ssa.BasicBlock, in ssa.Instruction) {
+			st, ok := in.(*ssa.Store)
+			if !ok {
+				return
+			}
+			fa, ok := st.Addr.(*ssa.FieldAddr)
+			if !ok || !an.IsProtoMessage(an.Deref(fa.X.Type())) {
+				return
+			}
+			n++
+			// the message written to must be allocated here (a fresh message)
+			_, fresh := fa.X.(*ssa.Alloc)
+			fieldName := an.StructFields(an.Deref(fa.X.Type()))[fa.Field].Name()
+			r.Check(fresh, "C24.R4", an.SSAName(fn)+"/stores-only-into-fresh-messages/"+an.TypeName(an.Deref(fa.X.Type()))+"."+fieldName, st.Pos(), "the store initialises a message built in this function", "the chunk sender writes into a message it did not build (obtained from the converted response): the change is visible in the later chunks of the same event, so the reassembled result differs from what the searcher produced")
+		})
+	}
+	r.Floor("C24.R4.message-field-stores", 3, n)
+}
+
+// c24Bitmaps: decoded query nodes never carry a nil bitmap.
+func c24Bitmaps(p *an.Prog, r *an.R) {
+	r.Rule("C24.R5", "in the *FromProto functions of package query every *roaring.Bitmap stored into a query node comes from roaring.New*/NewBitmap (never nil): the searcher dereferences it")
+	n := 0
+	for _, f := range p.SSAFuncs() {
+		if f.Pkg == nil || f.Pkg.Pkg.Path() != an.Mod+"/query" || !strings.HasSuffix(f.Name(), "FromProto") {
+			continue
+		}
+		an.Instrs(f, func(b *ssa.BasicBlock, in ssa.Instruction) {
+			st, ok := in.(*ssa.Store)
+			if !ok || !(strings.Contains(st.Val.Type().String(), "roaring") && strings.HasSuffix(st.Val.Type().String(), ".Bitmap")) {
+				return
+			}
+			if _, isField := st.Addr.(*ssa.FieldAddr); !isField {
+				return
+			}
+			n++
+			var nonNil func(v ssa.Value, seen map[ssa.Value]bool) bool
+			nonNil = func(v ssa.Value, seen map[ssa.Value]bool) bool {
+				if seen[v] {
+					return true
+				}
+				seen[v] = true
+				switch x := v.(type) {
+				case *ssa.Call:
+					cal := an.StaticCallee(x)
+					if cal != nil && cal.Pkg() != nil && strings.Contains(cal.Pkg().Path(), "roaring") && strings.HasPrefix(cal.Name(), "New") {
+						return true
+					}
+					// a helper of this package: all its returns must be non-nil
+					if callee := x.Common().StaticCallee(); callee != nil && callee.Blocks != nil {
+						ok := true
+						an.Instrs(callee, func(b2 *ssa.BasicBlock, i2 ssa.Instruction) {
+							if ret, isR := i2.(*ssa.Return); isR {
+								for i := range ret.Results {
+									rv := retOperand(ret, i)
+									if (strings.Contains(rv.Type().String(), "roaring") && strings.HasSuffix(rv.Type().String(), ".Bitmap")) {
+										// error paths may return nil together with a non-nil error
+										if c, isC := rv.(*ssa.Const); isC && c.IsNil() {
+											if len(ret.Results) > 1 {
+												if ec, isEC := retOperand(ret, len(ret.Results)-1).(*ssa.Const); !isEC || !ec.IsNil() {
+													continue
+												}
+											}
+											ok = false
+										} else if !nonNil(rv, seen) {
+											ok = false
+										}
+									}
+								}
+							}
+						})
+						return ok
+					}
+				case *ssa.Extract:
+					return nonNil(x.Tuple, seen)
+				case *ssa.Phi:
+					for _, e := range x.Edges {
+						if !nonNil(e, seen) {
+							return false
+						}
+					}
+					return true
+				case *ssa.Alloc:
+					return true
+				}
+				return false
+			}
+			r.Check(nonNil(st.Val, map[ssa.Value]bool{}), "C24.R5", an.SSAName(f)+"/bitmap-never-nil", st.Pos(), "the bitmap stored into the query node is always allocated", "a decoded query node can carry a nil *roaring.Bitmap (e.g. when the bytes field is unset): the request is accepted and the searcher dereferences nil - the gRPC handlers crash")
+		})
+	}
+	r.Floor("C24.R5.bitmap-stores", 2, n)
 }
 
 func c24Discover(p *an.Prog) []*c24Conv {
